@@ -129,8 +129,15 @@ def rule_accumulate(chk, prog, tree):
             elif pf.is_self_attr(f) and f.attr in native_attrs:
                 for b, i in passed.items():
                     delegated[b].append("self._fn arg %d" % i)
-                    for cname, cfn in fn_attr_targets(prog, mod, cls).items():
-                        c_jobs.setdefault(cfn, {})[i] = (b, cname)
+                # the value and gradient arrays C accumulates into over the control points: the first two
+                # native arguments, whether they are the shared buffers themselves or a scratch array that is
+                # added to them afterwards
+                for i, a_ in enumerate(call.args[:2]):
+                    nm_ = pf.base_name(a_.func) if isinstance(a_, ast.Call) and isinstance(a_.func, ast.Attribute) \
+                        else pf.base_name(a_)
+                    if nm_ and nm_ != "self":
+                        for cname, cfn in fn_attr_targets(prog, mod, cls).items():
+                            c_jobs.setdefault(cfn, {})[i] = (nm_, cname)
             else:
                 callee = None
                 if isinstance(f, ast.Attribute) and isinstance(f.value, ast.Name) and f.value.id in ("self", "cls"):
@@ -256,8 +263,12 @@ def _contig_names_established(node):
             out |= {e.id for e in st.iter.elts if isinstance(e, ast.Name)}
     if node.kind == "stmt" and isinstance(st, ast.Assign) and len(st.targets) == 1 \
             and isinstance(st.targets[0], ast.Name) and pf.call_name(st.value) in (
-            "np.ascontiguousarray", "numpy.ascontiguousarray", "np.require"):
-        out.add(st.targets[0].id)
+            "np.ascontiguousarray", "numpy.ascontiguousarray", "np.require",
+            "np.zeros", "np.empty", "np.ones", "np.zeros_like", "np.empty_like"):
+        # np.zeros_like of a non-contiguous template keeps its layout only with order="K"/"A" given a strided
+        # template; the evaluators allocate from a shape tuple
+        if pf.call_name(st.value) not in ("np.zeros_like", "np.empty_like"):
+            out.add(st.targets[0].id)
     return out
 
 
@@ -277,6 +288,16 @@ def rule_shape_guard(chk, prog):
     if cnode is None:
         raise core.AnalysisError("native call not found in the CFG")
     cls = prog.module(XE).cls("RBFEvaluator")
+    # the arrays actually handed to C (value buffer, gradient buffer, inputs) -- the gradient buffer may be a
+    # scratch array in the selected feature space that is scatter-added into dres afterwards
+    handed = []
+    for a_ in calls[0].args[:3]:
+        nm_ = pf.base_name(a_.func) if isinstance(a_, ast.Call) and isinstance(a_.func, ast.Attribute) else None
+        if nm_ is None or nm_ == "self":
+            raise core.AnalysisError("RBFEvaluator.__call__: the first three native arguments are not local arrays")
+        handed.append(nm_)
+    dres_param = a[3]
+    bufs, xname = handed[:2], handed[2]
 
     def shape_pred(b, x):
         def pred(node):
@@ -374,6 +395,126 @@ def rule_shape_guard(chk, prog):
                               "not the shape of the array passed to C" % (xname, pf.src(t.ast.test)), instance=inst)
             else:
                 chk.ok("shape-guard", inst, nontrivial=False)
+    rule_native_selection(chk, prog, mod, fn, g, calls[0], cnode, handed, dres_param, a[1])
+
+
+def rule_native_selection(chk, prog, mod, fn, g, call, cnode, handed, dres_param, xparam):
+    """One column selection for everything one native call sees, and the full-width dres contract:
+       * the inputs are selected by `X[..., self.<I>]`; the control points stored by __init__ must have been
+         selected by the same index array on the path that builds it from the kernel's own `indexes`;
+       * the gradient buffer handed to C, if it is not dres itself, must be scatter-added into
+         dres[..., self.<I>] after the call;
+       * dres is compared with the shape of the ORIGINAL input (every FuncEvaluator returns the gradient with
+         respect to all input features), not with the shape of the selected columns."""
+    where = "RBFEvaluator.__call__"
+    gbuf, xloc = handed[1], handed[2]
+    # selection attribute used for the inputs
+    sel = None
+    for st, v, k in er.assigns_to(fn, xloc):
+        for x in ast.walk(v) if v is not None else ():
+            if isinstance(x, ast.Subscript) and pf.base_name(x) == xparam:
+                for y in ast.walk(x.slice):
+                    if pf.is_self_attr(y):
+                        sel = y.attr
+    inst = "RBFEvaluator: inputs, control points and gradient use one column selection"
+    if sel is None:
+        chk.ok("shape-guard", inst + " (no selection)", nontrivial=False)
+    else:
+        imod, init = er.anchor(prog, XE, "RBFEvaluator.__init__")
+        ctrl_arg = call.args[3] if len(call.args) > 3 else None
+        ctrl_attr = next((x.attr for x in ast.walk(ctrl_arg) if pf.is_self_attr(x)), None) if ctrl_arg is not None else None
+        if ctrl_attr is None:
+            raise core.AnalysisError("RBFEvaluator.__call__: the control-point argument of the native call is not self.<attr>")
+        # locals flowing into self.<sel> and self.<ctrl_attr>
+        def local_of(attr):
+            for n in pf.walk_no_nested(init):
+                if isinstance(n, ast.Assign) and any(pf.is_self_attr(t, attr) for t in n.targets):
+                    nm = [x.id for x in ast.walk(n.value) if isinstance(x, ast.Name) and x.id not in ("np",)]
+                    return nm[0] if nm else None
+            return None
+        iloc, cloc = local_of(sel), local_of(ctrl_attr)
+        if iloc is None or cloc is None:
+            raise core.AnalysisError("RBFEvaluator.__init__: cannot find the locals stored in self.%s / self.%s" % (
+                sel, ctrl_attr))
+        problems = []
+        for st, v, k in er.assigns_to(init, iloc):
+            if v is None or not any(isinstance(x, ast.Attribute) and x.attr == "indexes" for x in ast.walk(v)):
+                continue  # identity selection (all features) or a type conversion
+            # the control points must be column-selected by the same local under the same conditions
+            conds = {(pf.src(t), p) for t, p, kk in cfgm.conditions_at(st) if kk == "enclosing"}
+            okc = False
+            for st2, v2, k2 in er.assigns_to(init, cloc):
+                if isinstance(v2, ast.Subscript) and pf.base_name(v2) == cloc \
+                        and any(isinstance(x, ast.Name) and x.id == iloc for x in ast.walk(v2.slice)) \
+                        and {(pf.src(t), p) for t, p, kk in cfgm.conditions_at(st2) if kk == "enclosing"} <= conds | {
+                            (pf.src(t), p) for t, p, kk in cfgm.conditions_at(st2)}:
+                    c2 = {(pf.src(t), p) for t, p, kk in cfgm.conditions_at(st2) if kk == "enclosing"}
+                    if c2 == conds:
+                        okc = True
+            if not okc:
+                problems.append(st)
+        if problems:
+            st = problems[0]
+            chk.violation("shape-guard", XE, "RBFEvaluator.__init__", pf.src(st).splitlines()[0][:110], st.lineno,
+                          "the inputs are reduced to the columns self.%s (built here from the kernel's `indexes`), and "
+                          "the native call is told nfeat of that reduced space, but the control points stored in "
+                          "self.%s are not reduced by the same selection on this path: C strides the two arrays "
+                          "with different widths" % (sel, ctrl_attr), instance=inst)
+        else:
+            chk.ok("shape-guard", inst, detail="self.%s selects %s and %s" % (sel, xparam, cloc))
+        # scatter of a scratch gradient buffer
+        inst = "RBFEvaluator.__call__: the native gradient reaches dres through the same selection"
+        if gbuf != dres_param:
+            def scatter(node):
+                st = node.ast
+                return node.kind == "stmt" and isinstance(st, ast.AugAssign) and isinstance(st.op, ast.Add) \
+                    and isinstance(st.target, ast.Subscript) and pf.base_name(st.target) == dres_param \
+                    and any(pf.is_self_attr(x, sel) for x in ast.walk(st.target.slice)) \
+                    and gbuf in er.names_in(st.value)
+            okc, _ = g.must_pass(scatter, src=cnode.id)
+            if okc:
+                chk.ok("shape-guard", inst)
+            else:
+                chk.violation("shape-guard", XE, where, "gradient buffer %s" % gbuf, call.lineno,
+                              "the native kernel writes the gradient into `%s` (selected columns), but no "
+                              "`%s[..., self.%s] += %s` follows the call on every path: the gradient never reaches "
+                              "the caller's buffer in the full feature space" % (gbuf, dres_param, sel, gbuf),
+                              instance=inst)
+        else:
+            chk.ok("shape-guard", inst + " (dres itself is handed to C)", nontrivial=False)
+    # full-width dres contract, for every evaluator with its own body
+    for m2, c2 in evaluator_classes(prog):
+        f2 = pf.methods(c2).get("__call__")
+        if f2 is None:
+            continue
+        a2 = [x.arg for x in f2.args.args]
+        if len(a2) < 4:
+            continue
+        xp, dp = a2[1], a2[3]
+        g2 = cfgm.CFG(f2)
+        for n in g2.nodes:
+            st = n.ast
+            if n.kind != "test" or not isinstance(st, ast.If) or not _mentions_attr_of(st.test, dp, "shape") \
+                    or not cfgm._raises(st.body):
+                continue
+            inst = "%s.__call__: dres is compared with the shape of the original input" % c2.name
+            okc = False
+            for x in ast.walk(st.test):
+                if isinstance(x, ast.Attribute) and x.attr == "shape" and isinstance(x.value, ast.Name) \
+                        and x.value.id == xp:
+                    okc = er.reaching_defs(g2, xp, n) == [None]
+                elif isinstance(x, ast.Name) and x.id not in (dp, xp):
+                    for st3, v3, k3 in er.assigns_to(f2, x.id):
+                        if isinstance(v3, ast.Attribute) and v3.attr == "shape" and isinstance(v3.value, ast.Name) \
+                                and v3.value.id == xp and er.reaching_defs(g2, xp, g2.node_of(st3)) == [None]:
+                            okc = True
+            if okc:
+                chk.ok("shape-guard", inst)
+            else:
+                chk.violation("shape-guard", m2.rel, "%s.__call__" % c2.name, pf.src(st.test), st.lineno,
+                              "`%s.shape` is not compared with the shape of the input `%s` as it was passed in (the "
+                              "input is rebound to a column selection first): the evaluator's gradient contract is "
+                              "the full input width, like its sibling evaluators" % (dp, xp), instance=inst)
 
 
 # ----------------------------------------------------------------------------
@@ -608,6 +749,114 @@ def rule_method_truth(chk, prog):
 
 
 # ----------------------------------------------------------------------------
+# rule 10: a leading dimension is not a spin count unless the rank / mode says so; twin agreement on the
+#          duplicated-channel factor
+# ----------------------------------------------------------------------------
+def _conjuncts(t, out):
+    if isinstance(t, ast.BoolOp) and isinstance(t.op, ast.And):
+        for v in t.values:
+            _conjuncts(v, out)
+    else:
+        out.append(t)
+
+
+def rule_spin_axis(chk, prog):
+    n_tests = 0
+    for rel in (XE, XE2):
+        mod = prog.module(rel)
+        er.register_str_consts(mod)
+        for cname, cls in mod.classes.items():
+            for mname, fn in pf.methods(cls).items():
+                # arrays whose rank is fixed in this function: `a, b, c = A.shape`, `assert A.ndim == k`
+                ranked = set()
+                for n in pf.walk_no_nested(fn):
+                    if isinstance(n, ast.Assign) and isinstance(n.targets[0], (ast.Tuple, ast.List)) \
+                            and isinstance(n.value, ast.Attribute) and n.value.attr == "shape":
+                        ranked.add(pf.src(n.value.value))
+                    a_ = er.asserted_stmt(n) if isinstance(n, (ast.Assert, ast.If)) else None
+                    if a_ is not None and not isinstance(a_, tuple):
+                        lits = []
+                        _conjuncts(a_, lits)
+                        for l in lits:
+                            if isinstance(l, ast.Compare) and isinstance(l.left, ast.Attribute) and l.left.attr == "ndim" \
+                                    and isinstance(l.ops[0], ast.Eq):
+                                ranked.add(pf.src(l.left.value))
+                for n in pf.walk_no_nested(fn):
+                    if not (isinstance(n, ast.Compare) and len(n.ops) == 1 and isinstance(n.ops[0], (ast.Eq, ast.NotEq))
+                            and isinstance(n.comparators[0], ast.Constant) and isinstance(n.comparators[0].value, int)
+                            and not isinstance(n.comparators[0].value, bool)
+                            and isinstance(n.left, ast.Subscript) and isinstance(n.left.value, ast.Attribute)
+                            and n.left.value.attr == "shape" and isinstance(n.left.slice, ast.Constant)
+                            and n.left.slice.value == 0):
+                        continue
+                    arr = pf.src(n.left.value.value)
+                    n_tests += 1
+                    # the conjunction the test belongs to, plus the conditions it runs under
+                    top = n
+                    while isinstance(pf.parent(top), ast.BoolOp) and isinstance(pf.parent(top).op, ast.And):
+                        top = pf.parent(top)
+                    lits = []
+                    _conjuncts(top, lits)
+                    lits += [t for t, pol, k in cfgm.conditions_at(n) if pol]
+                    flat = []
+                    for l in lits:
+                        _conjuncts(l, flat)
+                    okc = arr in ranked
+                    for l in flat:
+                        if er.mode_set_of_test(l) is not None:
+                            okc = True
+                        if isinstance(l, ast.Compare) and isinstance(l.left, ast.Attribute) and l.left.attr == "ndim" \
+                                and pf.src(l.left.value) == arr:
+                            okc = True
+                    inst = "%s.%s: `%s` is tied to the rank / spin mode of %s" % (cname, mname, pf.src(n), arr)
+                    if okc:
+                        chk.ok("spin-axis", inst)
+                    else:
+                        chk.violation("spin-axis", rel, "%s.%s" % (cname, mname), pf.src(top)[:110], n.lineno,
+                                      "`%s` is used as \"there are %s spin channels\", but nothing in this condition "
+                                      "fixes the rank of `%s` or the spin mode: when axis 0 is the flattened "
+                                      "(spin x sample) axis, a batch of exactly %s samples takes this branch too"
+                                      % (pf.src(n), n.comparators[0].value, arr, n.comparators[0].value), instance=inst)
+    chk.count("leading-dimension tests", n_tests)
+    # twins: the duplicated-channel factor of POL mode with a single input channel
+    facts = {}
+    for rel, cname in ((XE, "MappedDFTKernel"), (XE2, "MappedDFTKernel2")):
+        mod, fn = er.anchor(prog, rel, "%s.__call__" % cname)
+        rets = [x for x in pf.walk_no_nested(fn) if isinstance(x, ast.Return)]
+        if len(rets) != 1 or not isinstance(rets[0].value, ast.Tuple) or len(rets[0].value.elts) != 2:
+            raise core.AnalysisError("%s.__call__: expected `return <value>, <derivative>`" % cname)
+        dname = pf.src(rets[0].value.elts[1])
+        dflow = er.flow_closure(fn, dname)
+        found = set()
+        for st in pf.walk_no_nested(fn):
+            if not (isinstance(st, ast.Assign) and len(st.targets) == 1 and isinstance(st.targets[0], ast.Name)
+                    and st.targets[0].id in dflow):
+                continue
+            v, t = st.value, st.targets[0].id
+            if isinstance(v, ast.BinOp) and isinstance(v.op, ast.Mult):
+                for c_, x_ in ((v.left, v.right), (v.right, v.left)):
+                    if isinstance(c_, ast.Constant) and isinstance(x_, ast.Subscript) and pf.base_name(x_) == t \
+                            and isinstance(x_.slice, ast.Slice) and pf.src(x_.slice) in (":1", "0:1"):
+                        modes, other = er.split_conditions(st)
+                        found.add((c_.value, tuple(sorted(modes)),
+                                   tuple(sorted((txt.replace(" ", ""), p) for txt, p in other))))
+        facts[cname] = found
+    (c1, f1), (c2, f2) = sorted(facts.items())
+    inst = "MappedDFTKernel and MappedDFTKernel2 agree on the duplicated-channel factor of the derivative"
+    if f1 == f2:
+        chk.ok("spin-axis", inst, detail=str(sorted(f1)))
+    else:
+        missing, has = (c1, c2) if f2 - f1 else (c2, c1)
+        item = sorted((f2 - f1) or (f1 - f2))[0]
+        chk.violation("spin-axis", XE if missing == "MappedDFTKernel" else XE2, "%s.__call__" % missing,
+                      "duplicated-channel factor", 0,
+                      "%s.__call__ multiplies the derivative by %s and keeps one channel under modes %s, conditions %s; "
+                      "its twin %s.__call__ has no such statement: for the same inputs the two evaluators return "
+                      "derivatives that differ by that factor" % (has, item[0], list(item[1]), list(item[2]), missing),
+                      instance=inst)
+
+
+# ----------------------------------------------------------------------------
 # rule 6: mode ladders
 # ----------------------------------------------------------------------------
 LADDER_CLASSES = ((XE, "KernelEvalBase"), (XE, "MappedDFTKernel"), (XE2, "KernelEvalBase2"),
@@ -698,6 +947,10 @@ def _analyse_own(chk):
         c_, prog, list(LADDER_CLASSES) + [(m_.rel, k_.name) for m_, k_ in evaluator_classes(prog)]))
     chk.floor("stale-loop-var", 4, "methods with loops in the evaluator base classes and FuncEvaluator subclasses")
     chk.guard(rule_mode_ladders, prog)
+    chk.rule("spin-axis", "a test `A.shape[0] == k` standing for k spin channels is tied to the rank of A or to the "
+                          "spin mode; the twin mapped kernels apply the same duplicated-channel factor")
+    chk.guard(rule_spin_axis, prog)
+    chk.floor("spin-axis", 3, "leading-dimension tests in the evaluator modules + the twin comparison")
     chk.rule("method-truth", "no None/truthiness test on a self attribute that resolves to a plain method; the "
                              "additive baseline is guarded by a None test on the attribute its method reads")
     chk.guard(rule_method_truth, prog)
@@ -739,6 +992,14 @@ def analyse(chk):
                                                why='a data race in the native kernel evaluators corrupts res/dres'))
 
 
+def _drop_x1_contiguity(text):
+    a = "X1 = np.ascontiguousarray(X1[..., self._indexes])\n        if res is None:"
+    b = "for arr in [res, dsub, X1]:"
+    if text.count(a) != 1 or text.count(b) != 1:
+        return None
+    return text.replace(a, "X1 = X1[..., self._indexes]\n        if res is None:").replace(b, "for arr in [res, dsub]:")
+
+
 def mutants(tree):
     return [
         Mutant("baseline loses its return", BL, "    e[:] /= nspin\n    dedx[:] /= nspin\n    return e, dedx\n",
@@ -778,6 +1039,20 @@ def mutants(tree):
                "        if add_base:\n            a, da = self.additive_baseline(X0T)\n",
                "        if add_base and self.multiplicative_baseline:\n            a, da = self.additive_baseline(X0T)\n",
                expect="method-truth"),
+        Mutant("apply_descriptor_grad: leading dimension 2 taken for two spin channels", XE,
+               "            force_polarize\n            and self.mode == \"POL\"\n            and dfdX1.ndim == 3\n            and dfdX1.shape[0] == 2",
+               "            force_polarize\n            and dfdX1.shape[0] == 2", expect="spin-axis"),
+        Mutant("v1 loses the duplicated-channel factor", XE,
+               "        if self.mode == \"POL\" and X0T.shape[0] == 1:\n            # Both (identical) spin channels depend on the single input\n            # channel, so d/dX0T = d/dX1_a + d/dX1_b = 2 * d/dX1_a.\n            df = 2 * df[:1]\n",
+               "", expect="spin-axis"),
+        Mutant("v2 duplicated-channel factor becomes 1", XE2, "            df = 2 * df[:1]\n", "            df = 1 * df[:1]\n",
+               expect="spin-axis"),
+        Mutant("RBFEvaluator: control points not reduced with the inputs", XE,
+               "            X1ctrl = X1ctrl[..., indexes]\n", "", expect="shape-guard"),
+        Mutant("RBFEvaluator: dres compared with the selected-column shape", XE,
+               "        elif dres.shape != full_shape:", "        elif dres.shape != X1.shape:", expect="shape-guard"),
+        Mutant("RBFEvaluator: scratch gradient never scattered into dres", XE,
+               "        dres[..., self._indexes] += dsub\n", "", expect=None),
         Mutant("linear evaluator overwrites res", XE, "res[:] += X1.dot(self.consts)", "res[:] = X1.dot(self.consts)",
                expect="accumulate-py"),
         Mutant("spline evaluator overwrites dres columns", XE, "dres[:, ind_set] += dy * self.scale[t]",
@@ -793,17 +1068,18 @@ def mutants(tree):
                "od[1] = -2 * exps[0] * tmp * fac * (xi[1] - xc[1]);", expect="accumulate-c"),
         Mutant("C spin kernel overwrites out", MU_C_REL, "out[i] += aabb + abba;", "out[i] = aabb + abba;",
                expect="accumulate-c"),
-        Mutant("dres shape guard deleted", XE,
-               "            dres = np.zeros(X1.shape)\n        elif dres.shape != X1.shape:\n            raise ValueError\n"
-               "        n = X1.shape[-2]",
-               "            dres = np.zeros(X1.shape)\n        n = X1.shape[-2]", expect="shape-guard"),
-        Mutant("contiguity assertion skips dres", XE, "for arr in [res, dres, X1]:", "for arr in [res, X1]:",
+        Mutant("res shape guard deleted", XE,
+               "            res = np.zeros(X1.shape[-2])\n        elif res.shape != (X1.shape[-2],):\n            raise ValueError\n",
+               "            res = np.zeros(X1.shape[-2])\n", expect="shape-guard"),
+        Mutant("inputs handed to C neither made contiguous nor asserted contiguous", XE, fn=_drop_x1_contiguity,
                expect="shape-guard"),
+        Mutant("gradient scratch buffer allocated with the unselected width", XE, "dsub = np.zeros(X1.shape)",
+               "dsub = np.zeros(full_shape)", expect="shape-guard"),
         Mutant("zero res but not dres (v1, non-SEP)", XE, "                res[..., cond] = 0.0\n                dres[..., cond] = 0.0\n",
                "                res[..., cond] = 0.0\n", expect="cutoff-pair"),
         Mutant("zero res but not dres (v1, SEP)", XE, "                    dres[s][:, cond[s]] = 0.0\n", "",
                expect="cutoff-pair"),
-        Mutant("zero f but not df (v2, NPOL)", XE2, "                else:\n                    df[scond, :] = 0.0\n", "",
+        Mutant("zero f but not df (v2, NPOL/POL)", XE2, "                df[..., scond, :] = 0.0\n", "",
                expect="cutoff-pair"),
         Mutant("v2 SEP derivative mask from other array", XE2,
                "            cond = rho_tuple[0].shape[0] * rho_tuple[0] < rhocut\n            if self.mode == \"SEP\":\n                f[cond] = 0.0\n                df[cond] = 0.0",
